@@ -121,7 +121,7 @@ def run(case):
 
 
 def legs(tier):
-    return [Leg('kmeans', _case(tier != 'quick'), run, 600, 24000, max_shrink_buckets=6)]
+    return [Leg('kmeans', _case(tier != 'quick'), run, 2400, 24000, max_shrink_buckets=6)]
 
 
 REGIONS = {}
